@@ -205,13 +205,14 @@ func Specs() map[string]*PropSpec {
 	}
 	sd := func(fn string, kv ...string) Inst { return Inst{Pkg: "x/evm/statedb", Fn: fn, Params: pm(kv...)} }
 	m["C05"] = &PropSpec{
-		ID: "C05", Pkgs: []string{"./x/evm/statedb", "./precompiles/staking"},
+		ID: "C05", Pkgs: []string{"./x/evm/statedb", "./precompiles/staking", "./x/evm/keeper"},
 		Quick: []Inst{sd("VerifC05_StateDB", "ops", "3", "kinds", "tsdf"), sd("VerifC05_StateDB", "ops", "4", "kinds", "sfc", "addrs", "2", "vals", "2"), sd("VerifC05_StateDB", "ops", "3", "kinds", "tfc", "amts", "1"),
-			{Pkg: "precompiles/staking", Fn: "VerifC05_PrecompileRevert", Params: pm(), EngineReplay: true}},
+			{Pkg: "precompiles/staking", Fn: "VerifC05_PrecompileRevert", Params: pm(), EngineReplay: true}, {Pkg: "x/evm/keeper", Fn: "VerifC05_ApplyTransaction", Params: pm(), EngineReplay: true}},
 		Thorough: []Inst{sd("VerifC05_StateDB", "ops", "3", "kinds", "tsdfc"), sd("VerifC05_StateDB", "ops", "4", "kinds", "sfc", "addrs", "2", "vals", "2"), sd("VerifC05_StateDB", "ops", "4", "kinds", "tfc", "amts", "1"),
-			sd("VerifC05_StateDB", "ops", "4", "kinds", "sdf", "addrs", "2", "vals", "2"), {Pkg: "precompiles/staking", Fn: "VerifC05_PrecompileRevert", Params: pm(), EngineReplay: true}},
+			sd("VerifC05_StateDB", "ops", "4", "kinds", "sdf", "addrs", "2", "vals", "2"), {Pkg: "precompiles/staking", Fn: "VerifC05_PrecompileRevert", Params: pm(), EngineReplay: true},
+			{Pkg: "x/evm/keeper", Fn: "VerifC05_ApplyTransaction", Params: pm(), EngineReplay: true}},
 		Bounds: map[string]string{
-			"quick":    "every program of <= 3 state operations (value transfer, SSTORE, SELFDESTRUCT, nested call frame that returns or reverts, depth <= 2) over 3 accounts x 2 slots; plus the focused families of 4 operations {SSTORE, frame, mid-transaction Commit} over 2 accounts and 3 operations {transfer, frame, mid-transaction Commit}; all operand choices enumerated; one inner frame that calls staking approve / revoke / delegate (real method bodies, symbolic amounts and pre-existing grant) and then reverts or returns, compared with the Cosmos-side state (grant store, bonded pool, delegator balance) before the frame",
+			"quick":    "every program of <= 3 state operations (value transfer, SSTORE, SELFDESTRUCT, nested call frame that returns or reverts, depth <= 2) over 3 accounts x 2 slots; plus the focused families of 4 operations {SSTORE, frame, mid-transaction Commit} over 2 accounts and 3 operations {transfer, frame, mid-transaction Commit}; all operand choices enumerated; one inner frame that calls staking approve / revoke / delegate (real method bodies, symbolic amounts and pre-existing grant) and then reverts or returns, compared with the Cosmos-side state (grant store, bonded pool, delegator balance) before the frame; transaction level: the real ApplyTransaction (call or creation, any interpreter outcome, post-processing hook succeeding or failing) with an interpreter that writes a storage slot and a Cosmos-side record into the StateDB's context: both persist exactly when the transaction succeeds",
 			"thorough": "all five operation kinds with 3 operations; the focused families with 4 operations",
 		},
 		Outside:     []string{"Cosmos-side effects of the distribution and ICS-20 precompiles (same structure as the staking ones decided here: direct writes to the SDK context)", "gas, contract bytecode (the harness is the call tree)", "longer programs / deeper nesting than the bound"},
@@ -280,14 +281,14 @@ func Specs() map[string]*PropSpec {
 		Stubs:       []string{"c16Bank", "c16 registry"},
 	}
 	ek := func(fn string) Inst { return Inst{Pkg: "x/erc20/keeper", Fn: fn, Params: pm(), EngineReplay: true} }
-	c10 := []Inst{ek("VerifC10_ConvertCoin"), ek("VerifC10_ConvertERC20"), ek("VerifC10_Adversarial"), ek("VerifC10_Hook"), ek("VerifC10_HookUntrustedLog")}
+	c10 := []Inst{ek("VerifC10_ConvertCoin"), ek("VerifC10_ConvertERC20"), ek("VerifC10_Adversarial"), ek("VerifC10_Hook"), ek("VerifC10_HookUntrustedLog"), ek("VerifC10_OnRecvPacket")}
 	m["C10"] = &PropSpec{
 		ID: "C10", Pkgs: []string{"./x/erc20/keeper"}, Quick: c10, Thorough: c10,
 		Bounds: map[string]string{
-			"quick":    "one conversion from an arbitrary fully backed state of one pair (coin-origin and ERC20-origin), amounts and balances < 2^100: MsgConvertCoin, MsgConvertERC20 against the honest contract ledger; both messages against an adversarial contract (every call: arbitrary revert / return value / reported balance / Approval log); the EVM hook over receipts of <= 2 logs (registered / unregistered contract x Transfer / Approval / unknown event x recipient module / other x amount); the hook against a registered contract that emits an unbacked Transfer log",
+			"quick":    "one conversion from an arbitrary fully backed state of one pair (coin-origin and ERC20-origin), amounts and balances < 2^100: MsgConvertCoin, MsgConvertERC20 against the honest contract ledger; both messages against an adversarial contract (every call: arbitrary revert / return value / reported balance / Approval log); the EVM hook over receipts of <= 2 logs (registered / unregistered contract x Transfer / Approval / unknown event x recipient module / other x amount); the hook against a registered contract that emits an unbacked Transfer log; the IBC receive middleware OnRecvPacket after the vouchers were credited (honest token, possibly paused; module enabled or not; any received amount): a success acknowledgement is returned only over a consistent, fully backed state",
 			"thorough": "same",
 		},
-		Outside:     []string{"the Solidity bytecode of ERC20MinterBurnerDecimals (its ledger semantics are the stub)", "IBC callbacks, the bank-send wrapper and pair toggles (they end in ConvertCoin / ConvertERC20, decided here)", "sequences of conversions (each step is proved from an arbitrary backed state: inductive)"},
+		Outside:     []string{"the Solidity bytecode of ERC20MinterBurnerDecimals (its ledger semantics are the stub)", "the acknowledgement / timeout IBC callbacks, the bank-send wrapper and pair toggles (they end in ConvertCoin / ConvertERC20, decided here); packet JSON decoding and bech32 re-prefixing on receive", "sequences of conversions (each step is proved from an arbitrary backed state: inductive)"},
 		Assumptions: []string{"abi.ABI Pack / Unpack / UnpackIntoInterface / EventByID replaced by passing Go values", "EVM keeper (interface) = token contract stub; bank keeper = ledger stub", "counterexamples confirmed by concrete re-execution in the SSA interpreter"},
 		Stubs:       []string{"c10EVM (token contract: honest ledger / adversarial)", "c10Bank", "c10AK"},
 	}
